@@ -96,8 +96,8 @@ inductive Kind where
   | uintMin (lo max : Nat)
   /-- `ConfigFilterSelectivity`: parsed as `i64`, accepted in `0..=100` -/
   | selectivity
-  /-- `usize` with `transform = normalized_parallelism`: "0" (and only that text, before parsing)
-      is replaced by the number of CPUs -/
+  /-- `usize` with `transform = normalized_parallelism`: any text that parses to 0 ("0", "+0",
+      "00", …) is replaced by the number of CPUs -/
   | parallelism (ncpu max : Nat)
   | str
   /-- `String` with `transform = str::to_lowercase` (ASCII model) -/
@@ -159,7 +159,11 @@ def parse : Kind → List Char → Option Val
     | some v => if 0 ≤ v ∧ v ≤ 100 then some (.n v.toNat) else none
     | none => none
   | .parallelism ncpu max, s =>
-    if s == ['0'] then some (.n ncpu) else (parseUnsigned max s).map .n
+    -- `if value.parse::<usize>() == Ok(0) { get_available_parallelism().to_string() } else { value }`
+    match parseUnsigned max s with
+    | some 0 => some (.n ncpu)
+    | some n => some (.n n)
+    | none => none
   | .str, s => some (.s s)
   | .lowerStr, s => some (.s (lowerAscii s))
   | .enum t tr, s => (enumFind (if tr then trimBlanks s else s) t 0).map .e
